@@ -23,6 +23,9 @@ TRUSTED = ["Coq 8.16.1 kernel (coqc; coqchk in the thorough tier)",
            "harness/store_hist.py, harness/check.py"]
 ASSUMPTIONS = ["tensors (owned trees) of depth 1-3; points are full points or proper prefixes; handles are written through immediately "
                "(assignment <<= v and in-place += v), which is faithful because no operation of this family ever removes an element",
+               "every other operation of the shared model (append, __setitem__, clear, updateCoords, updatePayloads, iterRangeShapeRef and the "
+               "fiber-valued append/extend/__setitem__/<<=) is accepted by the oracle's re-synchronisation branch: C03_model_meets_spec covers "
+               "histories that mix them with the access families (stream 'with-mutators')",
                "start_pos: the cases carry a seed k, the shortcut used is k mod len; 'legal' = every coordinate before it is smaller "
                "than the one looked for (getPayload additionally refuses, by its own assertion, a shortcut whose coordinate is larger)"]
 case_to_coq = H.case_to_coq
@@ -37,6 +40,8 @@ KINDS = H.ACCESS_KINDS
 def streams(tier, rng):
     n = 300 if tier == "quick" else 6000
     yield ("random-histories", [H.gen_case(rng, KINDS) for _ in range(n)], False)
+    # access families interleaved with every mutator of the shared model (the oracle re-synchronises its map after them)
+    yield ("with-mutators", [H.gen_case(rng, KINDS + H.ALL_KINDS) for _ in range(n // 2)], False)
 
 
 def search(disagreeing, rng, rnd):
